@@ -203,6 +203,8 @@ def cover_variant(text, fname_body_marker):
 def run(cmd, timeout, mem_gb=12, cwd=None, env=None):
     t0 = time.time()
     pre = 'ulimit -v %d; ' % (mem_gb * 1024 * 1024)
+    env = dict(env if env is not None else os.environ)
+    env['TMPDIR'] = scratch()        # cbmc's external-SAT CNF files (up to 1 GB each) must not outlive the run
     try:
         p = subprocess.run(['bash', '-c', pre + 'exec "$@"', 'x'] + cmd, stdout=subprocess.PIPE, stderr=subprocess.PIPE,
                            timeout=timeout, cwd=cwd, env=env)
